@@ -75,9 +75,19 @@ fn plant_extras(fs: &mut SimFs, t: &mut Tape, dir: &str, extras: &mut Vec<Extra>
             let stored = fs.stat(&p).unwrap().mtime;
             extras.push(Extra { path: p, is_dir: false, mtime: stored, kind: "temp" });
         }
-        if t.draw(4) == 0 {
+        if t.draw(3) == 0 {
+            // a stale scratch directory inside .kismet_temp, holding young
+            // files that carry the same names as the stale files beside it
             let p = format!("{}/oldsub", td);
             fs.mkdir_all(&p);
+            for i in 0..nt {
+                if t.draw(2) == 0 {
+                    let f = format!("{}/.tmpOLD{}", p, i);
+                    let m = now - (t.draw(500) as i64) * 1_000_000_000;
+                    fs.plant_file(&f, b"young scratch", 0o600, m, m);
+                    extras.push(Extra { path: f, is_dir: false, mtime: 0, kind: "nested" });
+                }
+            }
             let ino = fs.lookup(&p).unwrap();
             fs.inode_mut(ino).mtime = now - 5 * HOUR;
             extras.push(Extra { path: p, is_dir: true, mtime: 0, kind: "tempdir" });
